@@ -54,7 +54,13 @@ def units():
                              ('setSize__' + S, ['C01', 'C05', 'C07']), ('msize__v', ['C01', 'C13']), ('mcapacity__v', ['C13']),
                              ('destroyFreeStorage__v', ['C02', 'C06']), ('dtor__v', ['C06']),
                              ('move_construct__r%s_%s' % (b, S), ['C01', 'C02', 'C05', 'C06', 'C07']),
-                             ('move_assign__r%s_%s' % (b, S), ['C01', 'C02', 'C05', 'C06', 'C07'])]:
+                             ('move_assign__r%s_%s' % (b, S), ['C01', 'C02', 'C05', 'C06', 'C07']),
+                             ('grow__u64_b', ['C01', 'C02', 'C06', 'C07', 'C08', 'C09', 'C18']),
+                             ('shrink_impl__' + S, ['C01', 'C02', 'C05', 'C06', 'C09', 'C18']),
+                             ('swap_impl__r' + b, ['C01', 'C02', 'C05', 'C06', 'C07'])]:
                 add('svb.%s.%s.%s' % (m.split('__')[0] + ('_c' if m.endswith('_c') else ''), et, sz), b + '__' + m, props, 1, b, sz, elem,
                     throws_reachable=False)
+    for sz in ('u8',):
+        add('SafeNextCapacity.%s' % sz, 'SafeNextCapacity__%s_u64_b' % sz, ['C08', 'C18'], 1, svb('ElemNR', sz), sz, 'ElemNR')
+    add('ExceptionGrowingPolicy.Check', 'Exc__Check__u64_u64', ['C08'], 1, svb('ElemNR', 'u8'), 'u8', 'ElemNR')
     return us
